@@ -169,13 +169,22 @@ def run(F, res, tier):
                 ks = [FL.kind_of_operand(eb, d, a) for a in g["call_t"]["args"]]
                 if "VBAR_GT" in ks and g["allowed"] == [True]:
                     okp = True
+            # the same test written as a match on the operator token's kind
+            if g.get("kind") == "enum" and (g.get("enum") or "").endswith("SyntaxKind") and g["allowed"] == ["VBAR_GT"]:
+                okp = True
     res.ob("G2", "pipe-node", "`|>` finishes a PIPE node and every other binary operator a BINARY_OP node", okp, where=eb.loc(),
            how="finish_node kinds in expr_bp: %s" % sorted(k for k in fins if k))
     # postfix loop (call / field access / tuple index) runs on the unit before the infix loop
-    heads = sorted({h for _, h in eb.back_edges()})
-    post = [b for b, t in eb.calls() if callee(t) == "syntax::parser::arg_list"]
-    infx = [b for b, t in eb.calls() if callee(t) == SK + "::infix_bp"]
-    ok_order = bool(post) and bool(infx) and all(not eb.can_reach(i, post) for i in infx) and all(eb.can_reach(p_, infx) for p_ in post)
+    # (on expr_bp with the helpers that belong to it inlined: the postfix loop may be a function of its own)
+    from lib import inline as IL
+    only_here = lambda p: p.startswith("syntax::parser::") and p != eb.path and \
+        any(callee(t_) == "syntax::parser::arg_list" for b_, t_ in F.fns[p].calls()) and \
+        {f_.path for f_, b_, t_ in F.callers_of(lambda c, p=p: c == p)} <= {eb.path}          # noqa: E731
+    ebv = IL.inlined(F, eb, want=only_here, depth=1)
+    heads = sorted({h for _, h in ebv.back_edges()})
+    post = [b for b, t in ebv.calls() if callee(t) == "syntax::parser::arg_list"]
+    infx = [b for b, t in ebv.calls() if callee(t) == SK + "::infix_bp"]
+    ok_order = bool(post) and bool(infx) and all(not ebv.can_reach(i, post) for i in infx) and all(ebv.can_reach(p_, infx) for p_ in post)
     res.ob("G2", "postfix-before-infix", "the postfix loop (call/field access/tuple index) completes before the infix loop starts and is not re-entered from it",
            ok_order and len(heads) == 2, where=eb.loc(), how="loops: %d; arg_list reachable from infix loop: %s" % (len(heads), not ok_order))
 
